@@ -11,8 +11,8 @@ use std::io::{BufRead, Write};
 pub mod generated {
     include!(concat!(env!("OUT_DIR"), "/gen/mod.rs"));
 }
-// `pub`: the code generated for `use m as p` is `pub use crate::m as p;`, which needs `crate::m` to be public
-pub use generated::*;
+// the documented embedding (as in /repo/e2e_tests/test_host_funcs): a private module, glob-imported at the root
+use generated::*;
 
 pub trait Dyn: Sized {
     fn to_v(&self) -> V;
